@@ -15,6 +15,7 @@ import (
 	"bytes"
 	"compress/gzip"
 	"fmt"
+	"io"
 	"net"
 	"net/http"
 	"net/http/httptest"
@@ -41,6 +42,7 @@ type HttpInfo struct {
 	Stream   bool   `json:"stream"`   // max-body-size applies to the stream (not a gzip body)
 	Status   int    `json:"status"`
 	Groups   int    `json:"groups"` // calls of the points writer
+	Answer   string `json:"answer,omitempty"`
 }
 
 type fakeMeta struct{ *metaclient.Client }
@@ -119,7 +121,10 @@ func httpTeardown() {
 }
 
 // doRaw writes one request on a fresh connection and returns the status (-1 = no answer).
+var lastAnswer string
+
 func doRaw(addr, query string, hdr []string, wire [][]byte, abort bool) int {
+	lastAnswer = ""
 	conn, err := net.DialTimeout("tcp", addr, 10*time.Second)
 	if err != nil {
 		return -1
@@ -149,6 +154,9 @@ func doRaw(addr, query string, hdr []string, wire [][]byte, abort bool) int {
 	resp, err := http.ReadResponse(bufio.NewReader(conn), nil)
 	if err != nil {
 		return -1
+	}
+	if b, err := io.ReadAll(io.LimitReader(resp.Body, 300)); err == nil {
+		lastAnswer = string(b)
 	}
 	resp.Body.Close()
 	return resp.StatusCode
@@ -335,7 +343,7 @@ func caseHTTP(r *gen.Rand, idx int) {
 	env.w.take()
 	status := doRaw(env.srv.Listener.Addr().String(), query, hdr, wire, abort)
 	groups := env.w.take()
-	info.Status, info.Groups = status, len(groups)
+	info.Status, info.Groups, info.Answer = status, len(groups), lastAnswer
 	var rows []RowObs
 	for _, g := range groups {
 		rows = append(rows, g...)
